@@ -25,6 +25,10 @@ def inner_adt(f):
     return None, None, None
 
 
+# the poll of a checked-out peer stream: Stream::poll_next, or StreamExt::poll_next_unpin (= Pin::new(s).poll_next(cx))
+INNER_POLL = ("poll_next", "poll_next_unpin")
+
+
 def poll_next_body(f, inner_path):
     short_inner = inner_path.split("::")[-1]
     out = []
